@@ -66,13 +66,17 @@ def r1(ctx):
     fb = ctx.fn(BF_GET)
     if fb is not None:
         # missing page reads as false
-        sw = list(bool_switches(fb, lambda o: o[0] == "call" and o[2].endswith("::contains_key")))
+        # the presence test: contains_key(page), or a match / if-let / is_some on pages.get(page)
+        tests = [(b_, tr_, fl_) for b_, o_, tr_, fl_ in bool_switches(fb, lambda o: o[0] == "call" and o[2].endswith("::contains_key"))]
+        tests += [(b_, some_, none_) for b_, v_, some_, none_ in option_tests(fb, lambda v_: strip(v_)[0] == "call" and strip(v_)[2].split("::")[-1] == "get" and "self.pages" in term_str(strip(v_)[3][0]))]
         good = False
-        if sw:
-            vals = [t for _, _, t in ret_values_in_region(fb, sw[0][3])]
-            good = bool(vals) and all(term_is_lit(t, 0) for t in vals if not term_has_call(t, FB + "::get")) 
-            inner = [s for s in sites(fb, FB + "::get") if fb.dominates(sw[0][2], s)]
-            good = good and bool(inner)
+        if tests:
+            _, present, absent = tests[0]
+            vals = [t for _, _, t in ret_values_in_region(fb, absent) if not fb.dominates(present, _)]
+            vals = [t for bb_, _, t in ret_values_in_region(fb, absent)]
+            good = bool(vals) and all(term_is_lit(r_, 0) for t in vals for r_ in roots(t) if not term_has_call(r_, FB + "::get"))
+            inner = [s for s in sites(fb, FB + "::get") if fb.dominates(present, s)]
+            good = good and bool(inner) and not any(s in fb.reach(absent, include_src=True) and not fb.dominates(present, s) for s in sites(fb, FB + "::get"))
         ctx.check(P, rule, "a page that does not exist reads as all-false", good, "!contains_key(page) => false, else page.get(j)", "DynamicBitfield::get does not answer false for a missing page")
 
 
